@@ -14,6 +14,8 @@ pub mod kv;
 pub mod rng;
 pub mod sim;
 pub mod nodes;
+pub mod creds;
+pub mod wire;
 pub mod e1;
 
 pub const VERIF_DIR: &str = "/verif";
